@@ -6,6 +6,9 @@
 #include "myth/myth.h"
 #include "myth_config.h"
 #include "myth_tls_func.h"
+#include <sys/mman.h>
+#include <sys/wait.h>
+#include <unistd.h>
 #include "seqmc.h"
 #include <sys/wait.h>
 #include <limits.h>
@@ -94,7 +97,7 @@ static int kt_depth; static long kt_hist;
 static void kt_rec(int depth, int * ops, int nops) {
   /* replay on a fresh table (objects do not copy) */
   myth_tls_key_allocator_init(KA);
-  int live[16], nlive = 0, bad = 0; char why[200] = "";
+  int live[16], nlive = 0, bad = 0, last_deleted = -1; char why[200] = "";
   for (int i = 0; i < nops && !bad; i++) {
     int op = ops[i]; SQ.transitions++;
     if (op == 0) {
@@ -109,17 +112,23 @@ static void kt_rec(int depth, int * ops, int nops) {
 	if (myth_tls_key_allocator_dealloc(KA, k) != (myth_tls_destructor_fun_t)-1) { bad = 1; snprintf(why, sizeof why, "delete of non-live key %d accepted", k); }
       } else {
 	if (myth_tls_key_allocator_dealloc(KA, live[which]) == (myth_tls_destructor_fun_t)-1) { bad = 1; snprintf(why, sizeof why, "delete of live key %d rejected", live[which]); }
+	last_deleted = live[which];
 	memmove(&live[which], &live[which + 1], sizeof(int) * (nlive - which - 1)); nlive--;
       }
-    } else {
+    } else if (op <= 5) {
       int k = op == 4 ? -1 : 1024;
       if (myth_tls_key_allocator_dealloc(KA, k) != (myth_tls_destructor_fun_t)-1) { bad = 1; snprintf(why, sizeof why, "delete of out-of-range key %d accepted", k); }
+    } else {
+      /* delete of a key that is in range but not live: 6 = the key deleted last (double delete), 7 = key 1023 (the last cell of the initial free list) */
+      int k = op == 6 ? last_deleted : 1023, is_live = 0;
+      for (int j = 0; j < nlive; j++) if (live[j] == k) is_live = 1;
+      if (k >= 0 && !is_live && myth_tls_key_allocator_dealloc(KA, k) != (myth_tls_destructor_fun_t)-1) { bad = 1; snprintf(why, sizeof why, "delete of key %d, which is not live (%s), accepted", k, op == 6 ? "deleted before" : "never created"); }
     }
   }
   kt_hist++; SQ.states++; SQ.evaluations++;
-  if (bad) { char key[100]; int o = 0; for (int i = 0; i < nops; i++) o += snprintf(key + o, sizeof key - o, "%d", ops[i]); sq_found(key, "", "key table history (0=create,1-3=delete i-th live,4/5=out of range): %s", why); return; }
+  if (bad) { char key[100]; int o = 0; for (int i = 0; i < nops; i++) o += snprintf(key + o, sizeof key - o, "%d", ops[i]); sq_found(key, "", "key table history (0=create,1-3=delete i-th live,4/5=out of range,6=delete again the key deleted last,7=delete key 1023): %s", why); return; }
   if (depth == kt_depth) return;
-  for (int op = 0; op < 6; op++) { ops[nops] = op; kt_rec(depth + 1, ops, nops + 1); if (SQ.nfound) return; }
+  for (int op = 0; op < 8; op++) { ops[nops] = op; kt_rec(depth + 1, ops, nops + 1); if (SQ.nfound) return; }
 }
 static void c10_keytable(int depth) {
   int ops[16]; kt_depth = depth; kt_hist = 0; kt_rec(0, ops, 0);
@@ -133,8 +142,10 @@ static void c10_keytable(int depth) {
   }
   if (myth_tls_key_allocator_alloc(KA, 0) != -1) sq_found("1025th create", "", "the 1025th create did not fail");
   if (myth_tls_key_allocator_dealloc(KA, 321) == (myth_tls_destructor_fun_t)-1) sq_found("delete at exhaustion", "", "delete of live key 321 rejected");
+  if (myth_tls_key_allocator_dealloc(KA, 321) != (myth_tls_destructor_fun_t)-1) sq_found("double delete at exhaustion", "", "second delete of key 321 accepted although it is no longer live");
   if (myth_tls_key_allocator_alloc(KA, 0) != 321) sq_found("reuse after delete", "", "create after delete did not reuse the freed key");
-  SQ.states += 3; SQ.evaluations += 3;
+  if (myth_tls_key_allocator_alloc(KA, 0) != -1) sq_found("create beyond exhaustion after a double delete", "", "a create succeeded with 1024 live keys: some key is handed out twice");
+  SQ.states += 5; SQ.evaluations += 5;
   sq_detail("%ld key-table histories to depth %d + exhaustion history (1024 creates, 1025th fails, delete+create reuses); ", kt_hist, depth);
   sq_sample("key table history e.g. create,create,delete(oldest),create,delete(non-live),create");
 }
@@ -337,8 +348,27 @@ int main(int argc, char ** argv) {
   if (whole) { static const int sets[4][3] = { {0, 1, 2}, {3, 17, 40}, {5, 100, 300}, {256, 700, 1023} }; int s, m; char msg[400] = ""; sscanf(whole, "%d:%d", &s, &m); int r = c11_whole(sets[s], 3, m, msg, sizeof msg); printf("whole %s -> %s %s\n", whole, r ? "VIOLATION" : "ok", msg); return r ? 1 : 0; }
   char sp[64]; snprintf(sp, sizeof sp, "build/%s/stats.json", part); if (!stats) stats = sp;
   if (!strcmp(part, "c10")) {
+    /* the real functions run inside this process: a crash of theirs (a wild read caught by ASan, a segmentation fault) must come out as
+       a finding, not as a check that died.  The enumeration runs in a child that notes the phase it is in; the parent judges its end. */
+    char * note = mmap(NULL, 4096, PROT_READ | PROT_WRITE, MAP_SHARED | MAP_ANONYMOUS, -1, 0);
+    unlink(stats); fflush(NULL);
+    pid_t pid = fork();
+    if (pid == 0) {
+      sq_begin("C10", "c10", "E3 seqmc (bounded exhaustive operation sequences vs dict / live-key-set models; ASan+UBSan)", "replays", argv[0]);
+      strcpy(note, "every key singly and in ordered pairs: set then get of all 1024 keys"); c10_single_and_pairs(tier);
+      strcpy(note, "set-sequences over 13 representative keys vs a dictionary"); c10_sequences(tier ? 4 : 3);
+      strcpy(note, "out-of-range key indices"); c10_range();
+      strcpy(note, "key-table create/delete histories"); c10_keytable(tier ? 7 : 6);
+      SQ.distinct = SQ.states;
+      _exit(sq_end(stats));
+    }
+    int st = 0; int hung = sq_wait_child(pid, 900, &st);
+    if (!hung && WIFEXITED(st) && access(stats, R_OK) == 0) return WEXITSTATUS(st);
     sq_begin("C10", "c10", "E3 seqmc (bounded exhaustive operation sequences vs dict / live-key-set models; ASan+UBSan)", "replays", argv[0]);
-    c10_single_and_pairs(tier); c10_sequences(tier ? 4 : 3); c10_range(); c10_keytable(tier ? 7 : 6);
+    SQ.exhaustive = 0; SQ.states = SQ.evaluations = 1;
+    sq_found(note, "--part c10", "the thread-specific-data code %s while the harness ran: %s (wait status 0x%x; AddressSanitizer's report, if any, is on stderr)",
+	     hung ? "did not return" : "crashed", note, st);
+    return sq_end(stats);
   } else {
     sq_begin("C11", "c11", "E3 seqmc (bounded exhaustive key subsets x destructor masks vs expected call list; ASan+UBSan, one forked child per case)", "replays", argv[0]);
     c11_units(tier); c11_library();
